@@ -268,6 +268,7 @@ func c19Parse(c *Ctx, parse *FuncInfo) {
 	})
 	c.Check(n == 2, "C19-R2", "Parse:both modes start from Parse", parse.Decl.Pos(), "parseGroups and parseNode", "expected one call to parseGroups and one to parseNode, found "+itoa(n))
 	c02WholeLinesR(c, "C19-R2")
+	c10ReadConsumes(c, "C19-R2")
 	c19EveryDocument(c, parse, loop, decodeCall)
 }
 
